@@ -8,7 +8,8 @@ import (
 
 func TestReplay(t *testing.T) {
 	verif.ReplayMain(map[string]func(){
-		"HarnessCloseHTTP": HarnessCloseHTTP,
-		"HarnessCloseWS":   HarnessCloseWS,
+		"HarnessCancelAndClose": HarnessCancelAndClose,
+		"HarnessCloseHTTP":      HarnessCloseHTTP,
+		"HarnessCloseWS":        HarnessCloseWS,
 	})
 }
